@@ -6,6 +6,39 @@ import PyIpmi.Lemmas.Codec
 namespace PyIpmi.Codec
 open PyIpmi
 
+/-! ### the (weaker) well-formedness that decoding needs: references point to earlier plain
+fields of the right kind and bit widths add up.  No ordering rule for optionals. -/
+
+def condOk (pre : List Field) (f : Field) : Bool :=
+  match f.wrap with
+  | .cond c => condRefsOk pre c
+  | _ => true
+
+def wfDec (pre : List Field) : List Field → Bool
+  | [] => true
+  | f :: fs => primRefsOk pre f.prim && condOk pre f && wfDec (pre ++ [f]) fs
+
+/-- decode-side well-formedness of a layout -/
+def Layout.wfDecode (l : Layout) : Bool := wfDec [] l
+
+theorem wfDec_of_wfAux (pre : List Field) (so : Bool) (fs : List Field)
+    (h : wfAux pre so fs = true) : wfDec pre fs = true := by
+  induction fs generalizing pre so with
+  | nil => rfl
+  | cons f fs ih =>
+    simp only [wfAux, Bool.and_eq_true] at h
+    obtain ⟨⟨⟨hp, hw⟩, _⟩, hrest⟩ := h
+    simp only [wfDec, Bool.and_eq_true]
+    refine ⟨⟨hp, ?_⟩, ih _ _ hrest⟩
+    unfold condOk
+    unfold wrapOk at hw
+    cases hfw : f.wrap <;> simp_all
+
+theorem wfDecode_of_wf (l : Layout) (h : l.wf = true) : l.wfDecode = true := by
+  unfold Layout.wf at h
+  simp only [Bool.and_eq_true] at h
+  exact wfDec_of_wfAux [] false l h.1
+
 theorem popN_ok {n : Nat} {data : List Nat} {k : List Nat → Val} {v : Val} {rest : List Nat}
     (h : popN n data k = .ok (v, rest)) :
     n ≤ data.length ∧ v = k (data.take n) ∧ rest = data.drop n := by
@@ -148,20 +181,20 @@ theorem bind_eq_ok {α β : Type} {x : Outcome α} {f : α → Outcome β} {b : 
   cases x <;> simp [Outcome.bind] at h
   exact ⟨_, rfl, h⟩
 
-theorem strict_aux (pre : List Field) (so : Bool) (env : List Val) (fs : List Field)
-    (data : List Nat) (st : DecState) (hwf : wfAux pre so fs = true) (hb : Bytes data)
+theorem strict_aux (pre : List Field) (env : List Val) (fs : List Field)
+    (data : List Nat) (st : DecState) (hwf : wfDec pre fs = true) (hb : Bytes data)
     (h : decAux env fs data = .ok st) :
     st.stopped = hasCcStop fs st.vals ∧
     (st.stopped = false → ∃ e, data = e ++ st.rest ∧ encAux env fs st.vals = .ok e) := by
-  induction fs generalizing pre so env data st with
+  induction fs generalizing pre env data st with
   | nil =>
     simp only [decAux] at h
     injection h with h
     subst h
     exact ⟨rfl, fun _ => ⟨[], by simp, rfl⟩⟩
   | cons f fs ih =>
-    simp only [wfAux, Bool.and_eq_true] at hwf
-    obtain ⟨⟨⟨hp, _⟩, _⟩, hrest⟩ := hwf
+    simp only [wfDec, Bool.and_eq_true] at hwf
+    obtain ⟨⟨hp, _⟩, hrest⟩ := hwf
     simp only [decAux] at h
     obtain ⟨⟨v, r⟩, hf, h⟩ := bind_eq_ok h
     obtain ⟨e, he1, he2⟩ := field_strict pre env f data v r hp hb hf
@@ -175,7 +208,7 @@ theorem strict_aux (pre : List Field) (so : Bool) (env : List Val) (fs : List Fi
       injection h with h
       subst h
       have hbr : Bytes r := by rw [he1] at hb; exact hb.of_append_right
-      obtain ⟨i1, i2⟩ := ih (pre ++ [f]) _ (env ++ [v]) r st' hrest hbr hd
+      obtain ⟨i1, i2⟩ := ih (pre ++ [f]) (env ++ [v]) r st' hrest hbr hd
       have hs' : isCcStop f v = false := by simpa using hs
       refine ⟨by simp [hasCcStop, hs', i1], ?_⟩
       intro hst
@@ -321,8 +354,8 @@ theorem decPrim_kind (pre : List Field) (env : List Val) (p : Prim) (data : List
       subst h1 h2
       exact ⟨_, rfl, unpack_length _ _⟩
 
-theorem decField_kind (pre : List Field) (so : Bool) (env : List Val) (f : Field) (data : List Nat)
-    (hp : primRefsOk pre f.prim = true) (hw : wrapOk pre so f = true) (he : EnvOk pre env) :
+theorem decField_kind (pre : List Field) (env : List Val) (f : Field) (data : List Nat)
+    (hp : primRefsOk pre f.prim = true) (hw : condOk pre f = true) (he : EnvOk pre env) :
     decField env f data = .decodingError ∨
       ∃ v r, decField env f data = .ok (v, r) ∧ ShapeOk f v := by
   unfold decField
@@ -341,9 +374,8 @@ theorem decField_kind (pre : List Field) (so : Bool) (env : List Val) (f : Field
       exact Or.inr ⟨_, _, rfl, by intro hpl; rw [hfw] at hpl; cases hpl⟩
   | cond c =>
     have hc : condRefsOk pre c = true := by
-      unfold wrapOk at hw; rw [hfw] at hw
-      simp only [Bool.and_eq_true] at hw
-      exact hw.1.2
+      unfold condOk at hw; rw [hfw] at hw
+      exact hw
     obtain ⟨b, hb⟩ := cond_eval_some pre env c hc he
     cases b with
     | true =>
@@ -355,23 +387,23 @@ theorem decField_kind (pre : List Field) (so : Bool) (env : List Val) (f : Field
       simp only [hb]
       exact Or.inr ⟨_, _, rfl, by intro hpl; rw [hfw] at hpl; cases hpl⟩
 
-theorem decAux_kind (pre : List Field) (so : Bool) (env : List Val) (fs : List Field)
-    (data : List Nat) (hwf : wfAux pre so fs = true) (he : EnvOk pre env) :
+theorem decAux_kind (pre : List Field) (env : List Val) (fs : List Field)
+    (data : List Nat) (hwf : wfDec pre fs = true) (he : EnvOk pre env) :
     decAux env fs data = .decodingError ∨ ∃ st, decAux env fs data = .ok st := by
-  induction fs generalizing pre so env data with
+  induction fs generalizing pre env data with
   | nil => exact Or.inr ⟨_, rfl⟩
   | cons f fs ih =>
-    simp only [wfAux, Bool.and_eq_true] at hwf
-    obtain ⟨⟨⟨hp, hw⟩, _⟩, hrest⟩ := hwf
+    simp only [wfDec, Bool.and_eq_true] at hwf
+    obtain ⟨⟨hp, hw⟩, hrest⟩ := hwf
     simp only [decAux]
-    rcases decField_kind pre so env f data hp hw he with h | ⟨v, r, h, hs⟩
+    rcases decField_kind pre env f data hp hw he with h | ⟨v, r, h, hs⟩
     · exact Or.inl (by simp [h, Outcome.bind])
     · simp only [h, Outcome.bind_ok]
       by_cases hst : isCcStop f v = true
       · simp only [hst, if_true]
         exact Or.inr ⟨_, rfl⟩
       · simp only [hst]
-        rcases ih (pre ++ [f]) _ (env ++ [v]) r hrest (he.snoc hs) with h' | ⟨st, h'⟩
+        rcases ih (pre ++ [f]) (env ++ [v]) r hrest (he.snoc hs) with h' | ⟨st, h'⟩
         · exact Or.inl (by simp [h', Outcome.bind])
         · exact Or.inr ⟨⟨v :: st.vals, st.stopped, st.rest⟩, by simp [h']⟩
 
